@@ -1,5 +1,6 @@
 import ExponaxModel.Properties.C02
 import ExponaxModel.Proofs.ContourTailETDRK
+import ExponaxModel.Proofs.ContourComplexNodes
 /-
 C02 (continued) — accuracy of the contour rule.  Separate file because the tail-bound library builds on the
 coefficient theorems of `Properties/C02.lean` (no import cycle); audited together with it.
@@ -60,5 +61,100 @@ theorem C02_coefficients_default_accuracy (dt lam : ℝ) (hz : lam * dt ≤ 0) :
   have h := ContourTail.coef_errors_default dt lam hz
   exact ⟨h.1, h.2.2.1, h.2.2.2.2.2.2.2.2.1, h.2.2.2.2.2.2.2.2.2.2.2.1, h.2.2.2.2.2.2.2.2.2.2.2.2.1,
          h.2.2.2.2.2.2.2.2.2.2.2.2.2⟩
+
+
+/-! ### the whole closed left half-plane and the growing strip (library `Proofs/ContourComplex*.lean`): for COMPLEX
+z = λ·dt (advection, dispersion, damped waves) with the defaults M = 16, r = 1, all fourteen stored coefficients are
+within 1.7·10⁻¹²·|dt| of dt × the exact φ-combination for Re z ≤ 0 (Cauchy radius R = 16), within 8.3·10⁻⁴·|dt| for
+Re z ≤ 20 — PROVIDED z is none of the sixteen points −ζ_j (a contour node then sits on the removable singularity and the
+closed form is 0/0); that condition is necessary and sufficient (`C02_accuracy_iff_off_the_nodes`), real and purely
+imaginary symbols never meet it, and the stored coefficient is continuous (holomorphic) in λ everywhere else -/
+
+open Exponax.ContourComplex in
+theorem C02_contour_node_vanishes_iff :
+    ∀ (M : ℕ) (r z : ℂ),
+      (∃ ζ ∈ Gen.Etdrk.roots_of_unity M, r * ζ + z = 0) ↔ ∃ j < M, z = -(r * Gen.Etdrk.root_of_unity M (j + 1)) :=
+  @Exponax.ContourComplex.exists_node_eq_zero_iff
+
+open Exponax.ContourComplex in
+theorem C02_coefficients_complex_halfplane_accuracy :
+    ∀ (dt lam : ℂ),
+      (lam * dt).re ≤ 0 →
+        (∀ ζ ∈ Gen.Etdrk.roots_of_unity 16, lam * dt ≠ -(1 * ζ)) →
+          ‖Gen.Etdrk.E1_coef_1 dt lam 16 1 - dt * ContourTail.phi1e (lam * dt)‖ ≤ ‖dt‖ * 17e-13 ∧
+            ‖Gen.Etdrk.E2_coef_1 dt lam 16 1 - dt * ContourTail.phi1e (lam * dt)‖ ≤ ‖dt‖ * 17e-13 ∧
+              ‖Gen.Etdrk.E2_coef_2 dt lam 16 1 - dt * ContourTail.phi2e (lam * dt)‖ ≤ ‖dt‖ * 17e-13 ∧
+                ‖Gen.Etdrk.E3_coef_1 dt lam 16 1 - dt * (ContourTail.phi1e (lam * dt / 2) / 2)‖ ≤ ‖dt‖ * 17e-13 ∧
+                  ‖Gen.Etdrk.E3_coef_2 dt lam 16 1 - dt * ContourTail.phi1e (lam * dt)‖ ≤ ‖dt‖ * 17e-13 ∧
+                    ‖Gen.Etdrk.E3_coef_3 dt lam 16 1 -
+                            dt *
+                              (ContourTail.phi1e (lam * dt) - 3 * ContourTail.phi2e (lam * dt) +
+                                4 * ContourTail.phi3e (lam * dt))‖ ≤
+                        ‖dt‖ * 17e-13 ∧
+                      ‖Gen.Etdrk.E3_coef_4 dt lam 16 1 -
+                              dt * (4 * ContourTail.phi2e (lam * dt) - 8 * ContourTail.phi3e (lam * dt))‖ ≤
+                          ‖dt‖ * 17e-13 ∧
+                        ‖Gen.Etdrk.E3_coef_5 dt lam 16 1 -
+                                dt * (4 * ContourTail.phi3e (lam * dt) - ContourTail.phi2e (lam * dt))‖ ≤
+                            ‖dt‖ * 17e-13 ∧
+                          ‖Gen.Etdrk.E4_coef_1 dt lam 16 1 - dt * (ContourTail.phi1e (lam * dt / 2) / 2)‖ ≤ ‖dt‖ * 17e-13 ∧
+                            ‖Gen.Etdrk.E4_coef_2 dt lam 16 1 - dt * (ContourTail.phi1e (lam * dt / 2) / 2)‖ ≤
+                                ‖dt‖ * 17e-13 ∧
+                              ‖Gen.Etdrk.E4_coef_3 dt lam 16 1 - dt * (ContourTail.phi1e (lam * dt / 2) / 2)‖ ≤
+                                  ‖dt‖ * 17e-13 ∧
+                                ‖Gen.Etdrk.E4_coef_4 dt lam 16 1 -
+                                        dt *
+                                          (ContourTail.phi1e (lam * dt) - 3 * ContourTail.phi2e (lam * dt) +
+                                            4 * ContourTail.phi3e (lam * dt))‖ ≤
+                                    ‖dt‖ * 17e-13 ∧
+                                  ‖Gen.Etdrk.E4_coef_5 dt lam 16 1 -
+                                          dt * (ContourTail.phi2e (lam * dt) - 2 * ContourTail.phi3e (lam * dt))‖ ≤
+                                      ‖dt‖ * 17e-13 ∧
+                                    ‖Gen.Etdrk.E4_coef_6 dt lam 16 1 -
+                                          dt * (4 * ContourTail.phi3e (lam * dt) - ContourTail.phi2e (lam * dt))‖ ≤
+                                      ‖dt‖ * 17e-13 :=
+  @Exponax.ContourComplex.coef_errors_halfplane
+
+open Exponax.ContourComplex in
+theorem C02_coefficients_growing_modes_accuracy :
+    ∀ (dt lam : ℂ),
+      (lam * dt).re ≤ 20 →
+        (∀ ζ ∈ Gen.Etdrk.roots_of_unity 16, lam * dt ≠ -(1 * ζ)) →
+          ∀ (i : Fin 14), ‖storedCoef dt lam 16 1 i - dt * exactPhi (lam * dt) i‖ ≤ ‖dt‖ * 83e-5 :=
+  @Exponax.ContourComplex.storedCoef_error_re_le_20
+
+open Exponax.ContourComplex in
+theorem C02_coefficients_imaginary_symbol_accuracy :
+    ∀ (dt ω : ℝ) (i : Fin 14),
+      ‖storedCoef (↑dt) (Complex.I * ↑ω) 16 1 i - ↑dt * exactPhi (Complex.I * ↑ω * ↑dt) i‖ ≤ |dt| * 17e-13 :=
+  @Exponax.ContourComplex.storedCoef_error_advection
+
+open Exponax.ContourComplex in
+theorem C02_accuracy_iff_off_the_nodes :
+    ∀ (dt lam : ℂ),
+      dt ≠ 0 →
+        (lam * dt).re ≤ 0 →
+          ((∀ (i : Fin 14), ‖storedCoef dt lam 16 1 i - dt * exactPhi (lam * dt) i‖ ≤ ‖dt‖ * 17e-13) ↔
+            ∀ ζ ∈ Gen.Etdrk.roots_of_unity 16, lam * dt ≠ -(1 * ζ)) :=
+  @Exponax.ContourComplex.halfplane_accuracy_iff
+
+open Exponax.ContourComplex in
+theorem C02_real_symbols_never_on_a_node :
+    ∀ (M : ℕ), 0 < M → M % 2 = 0 → ∀ (x : ℝ), ∀ ζ ∈ (Gen.Etdrk.roots_of_unity M : List ℂ), (x : ℂ) ≠ -(1 * ζ) :=
+  @Exponax.ContourComplex.excluded_of_real
+
+open Exponax.ContourComplex in
+theorem C02_imaginary_symbols_never_on_a_node :
+    ∀ (M : ℕ),
+      0 < M → M % 4 = 0 → ∀ (z : ℂ), z.re = 0 → ∀ ζ ∈ Gen.Etdrk.roots_of_unity M, z ≠ -(1 * ζ) :=
+  @Exponax.ContourComplex.excluded_of_re_eq_zero
+
+open Exponax.ContourComplex in
+theorem C02_coefficients_continuous_off_the_nodes :
+    ∀ (dt r : ℂ) (M : ℕ) (lam0 : ℂ),
+      (∀ ζ ∈ Gen.Etdrk.roots_of_unity M, lam0 * dt ≠ -(r * ζ)) →
+        ∀ (i : Fin 14), ContinuousAt (fun lam ↦ storedCoef dt lam M r i) lam0 :=
+  @Exponax.ContourComplex.continuousAt_storedCoef
+
 
 end Exponax
